@@ -26,6 +26,7 @@ func checkC19(w *World, r *Report) {
 	checkC19Annotation(w, r)
 	checkC19Inherit(w, r)
 	checkScrubRule(w, r, analyseDispatch(w), "C19.6")
+	checkCloneWithCarries(w, r, "C19.7", "route")
 }
 
 // objectOf: the struct pointer a field address belongs to, resolved through spilled option parameters.
